@@ -356,7 +356,7 @@ static int visit(const void * e, cstl_bintree_visit_order_t ord, void * p)
         evs[nev].id = elem_id(cur_kind, e);
         evs[nev].ord = (int)ord;
     }
-    return nev++ == stop_at ? 7 : 0;
+    return nev++ == stop_at ? h_stop_value(stop_at) : 0;
 }
 
 static void print_evs(void)
